@@ -120,24 +120,24 @@ var errInjected = injected{}
 
 var reasonOf = map[string]string{
 	"Failed to parse entry": "bad",
-	"Replication checkpoint parse failed; dropping connection":            "bad",
-	"Unexpected message type; dropping connection":                        "bad",
-	"Error from writer; dropping connection":                              "bad",
-	"Failed to parse error message from writer; dropping connection":      "bad",
-	"Replication entry missing MAC tag; dropping connection":              "tag",
-	"Replication entry tag length mismatch; dropping connection":          "tag",
-	"Replication entry tag malformed; dropping connection":                "tag",
-	"Replication entry MAC tag verification failed; dropping connection":  "tag",
-	"Replication entry sequence did not advance; dropping connection":     "seq",
-	"Replication checkpoint cluster name mismatch; dropping connection":   "ckpt-cluster",
-	"Replication checkpoint sequence mismatch; dropping connection":       "ckpt-seq",
-	"Replication checkpoint hash length mismatch; dropping connection":    "ckpt-hash",
-	"Replication checkpoint hash malformed; dropping connection":          "ckpt-hash",
-	"Replication checkpoint hash mismatch; dropping connection":           "ckpt-hash",
-	"Replication checkpoint HMAC validation failed; dropping connection":  "ckpt-mac",
-	"Connection closed":                "eof",
-	"Failed to apply entry":            "applyfail",
-	"Replication checkpoint verified":  "ckpt-ok",
+	"Replication checkpoint parse failed; dropping connection":           "bad",
+	"Unexpected message type; dropping connection":                       "bad",
+	"Error from writer; dropping connection":                             "bad",
+	"Failed to parse error message from writer; dropping connection":     "bad",
+	"Replication entry missing MAC tag; dropping connection":             "tag",
+	"Replication entry tag length mismatch; dropping connection":         "tag",
+	"Replication entry tag malformed; dropping connection":               "tag",
+	"Replication entry MAC tag verification failed; dropping connection": "tag",
+	"Replication entry sequence did not advance; dropping connection":    "seq",
+	"Replication checkpoint cluster name mismatch; dropping connection":  "ckpt-cluster",
+	"Replication checkpoint sequence mismatch; dropping connection":      "ckpt-seq",
+	"Replication checkpoint hash length mismatch; dropping connection":   "ckpt-hash",
+	"Replication checkpoint hash malformed; dropping connection":         "ckpt-hash",
+	"Replication checkpoint hash mismatch; dropping connection":          "ckpt-hash",
+	"Replication checkpoint HMAC validation failed; dropping connection": "ckpt-mac",
+	"Connection closed":               "eof",
+	"Failed to apply entry":           "applyfail",
+	"Replication checkpoint verified": "ckpt-ok",
 }
 
 // Write receives one zerolog JSON line from the REAL receiver's logger.
